@@ -1,6 +1,7 @@
 SPECIFICATION Spec06
 CONSTANTS
   MHBytes = {0}
+  MutCtx <- MutCtxQuick
   MaxVal = 0
   ExportMode = "quick"
 INVARIANTS Inv06_Clauses Inv06_Unique Inv06_Base
